@@ -130,6 +130,15 @@ def run(ck: core.Check):
         ck.leanchecker(["SpoxModel.Props.C12"])
 
     rng = ck.rng
+    import time as _time
+
+    _t = [_time.time()]
+    phases = {}
+
+    def lap(name):
+        phases[name] = round(_time.time() - _t[0], 1)
+        _t[0] = _time.time()
+
     # ---- tie H (1): the manager on its own, real vs IR executor; model-free judgement alongside
     rcases = [gen_rename_case(rng) for _ in range(ck.pick(600, 4000))]
     try:
@@ -161,6 +170,7 @@ def run(ck: core.Check):
     ck.cov["rename_correspondence_cases"] = len(rcases)
     ck.cov["rename_correspondence_mismatches"] = mism
 
+    lap("renames")
     # ---- tie H (2): the front-end model gives one answer under every set order, equal to the real build
     progs = [lf.gen_program(rng) for _ in range(ck.pick(60, 400))]
     dcases = []
@@ -199,8 +209,9 @@ def run(ck: core.Check):
     ck.cov["set_order_correspondence_cases"] = len(dcases) * 5
     ck.cov["set_order_correspondence_mismatches"] = dm
 
+    lap("set_orders")
     # ---- oracle: histories, in this process (which has a long history of its own by now)
-    n_hist = ck.pick(800, 4000)
+    n_hist = ck.pick(650, 4000)
     hcases = []
     stats = {"ops": {}, "violating_histories": 0, "refs": 0}
     for _ in range(n_hist):
@@ -227,6 +238,7 @@ def run(ck: core.Check):
             small = shrink_history(c["prog"], c["hist"][: step + 1] if 0 <= step < len(c["hist"]) else c["hist"], c["ref"], key)
             ck.failure(key, what, {"mode": "history", "prog": c["prog"], "hist": small, "ref": c["ref"]})
 
+    lap("histories")
     # ---- oracle: Graph setters applied to an already built Graph (memoised build result)
     probes = 0
     for c in hcases[: ck.pick(60, 400)]:
@@ -243,8 +255,9 @@ def run(ck: core.Check):
             ck.failure(key, what, {"mode": "graphcache", "prog": c["prog"], "ref": c["ref"]})
     stats["graph_setter_probes"] = probes
 
+    lap("graph_setters")
     # ---- oracle: look-alike programs built, freed and built again (results keyed by object identity go stale)
-    n_fam = ck.pick(40, 200)
+    n_fam = ck.pick(30, 200)
     fams = 0
     for _ in range(n_fam):
         fam = lh.gen_reuse_family(rng, rng.randrange(4, 9))
@@ -261,6 +274,7 @@ def run(ck: core.Check):
             ck.failure(key, what, {"mode": "reuse", "family": fam})
     stats["reuse_families"] = fams
 
+    lap("reuse_families")
     # ---- oracle: the same reference requests in fresh interpreters, several hash seeds / allocation patterns
     hashseeds = list(range(ck.pick(6, 32)))
     sub = [c for c in hcases if c["ref"] is not None][: ck.pick(150, 400)]
@@ -298,7 +312,9 @@ def run(ck: core.Check):
                            {"mode": "fresh-vs-history", "prog": fc["prog"], "hist": sub[j]["hist"], "ref": fc["ref"],
                             "hashseeds": hashseeds[:3], "salt": fc["salt"], "prelude": prelude})
         stats["refs"] += 1
+    lap("fresh_processes")
     ck.cov.update({
+        "phase_seconds": phases,
         "histories": len(hcases),
         "fresh_process_cases": len(fresh_cases),
         "hash_seeds": len(hashseeds),
